@@ -6,6 +6,8 @@ pub mod c06;
 pub mod c10;
 pub mod c11;
 pub mod c12;
+pub mod c13;
+pub mod c14;
 pub mod c15;
 pub mod c16;
 pub mod families;
@@ -25,6 +27,8 @@ pub fn run_check(id: &str, tier: &str, seed: u64) -> Option<i32> {
         "C10" => c10::run(tier, seed),
         "C11" => c11::run(tier, seed),
         "C12" => c12::run(tier, seed),
+        "C13" => c13::run(tier, seed),
+        "C14" => c14::run(tier, seed),
         "C15" => c15::run(tier, seed),
         "C16" => c16::run(tier, seed),
         _ => return None,
@@ -48,6 +52,8 @@ pub fn replay(replay: &Value) -> Result<Vec<Violation>, String> {
         "C11" | "C11-sim" => c11::replay(replay)?,
         "C16" => c16::replay(replay)?,
         "C12" => c12::replay(replay)?,
+        "C13" => c13::replay(replay)?,
+        "C14" => c14::replay(replay)?,
         "C15" => c15::replay(replay["input"].as_str().ok_or("input")?),
         other => return Err(format!("unknown replay kind `{other}`")),
     })
@@ -57,6 +63,8 @@ pub fn replay(replay: &Value) -> Result<Vec<Violation>, String> {
 pub fn worker(name: &str) -> Option<()> {
     match name {
         "C12" => crate::engine::worker_loop(c12::worker_check),
+        "C13" => crate::engine::worker_loop(c13::worker_check),
+        "C14" => crate::engine::worker_loop(c14::worker_check),
         _ => return None,
     }
     Some(())
